@@ -154,21 +154,24 @@ func leaseClass(l int32) string {
 
 func runC18(t *testing.T, res *common.Result, rng *common.Rng) {
 	res.Rule = "seeded random histories (20-40 requests: TryLock / Lock(wait 1 s) / Unlock, no lease or 1 s / 2 s / 60 s leases, from 2 gRPC connections and 1 REST session over 3-4 names of size 1-2) " +
-		"against the real server binary; `ldlm-lock list` is compared with the client-side expectation at checkpoints and at the end (holds within 0.5 s of their lease deadline are not asserted), " +
+		"against the real server binary (quick: 4 histories; thorough: 60, rotating over default / --shards 1 / --no_clear_on_disconnect); `ldlm-lock list` is compared with the client-side expectation at checkpoints and at the end (holds within 0.5 s of their lease deadline are not asserted), " +
 		"then every listed hold is released with `ldlm-lock unlock`, alternating name only / name+key (name only just when it is the sole hold of the name), each followed by list, a TryLock probe, a Renew probe and the decoded state file; " +
 		"finally unlock of absent names and of a present name with a wrong key. A case is a list comparison (canonical: multiset of name-slot:size:owner:lease-class; non-trivial when >= 1 hold is live) " +
 		"or an unlock attempt (mode, owner transport, lease class, size, number of live holds of the name; always non-trivial)"
-	histories := 2
+	histories := 4
+	cfgs := [][]string{nil}
 	if common.Thorough() {
-		histories = 24
+		histories = 60
+		cfgs = append(cfgs, []string{"--shards", "1"}, []string{"--no_clear_on_disconnect"})
 	}
 	for h := 0; h < histories; h++ {
-		c18History(t, res, rng.Fork(uint64(h)), h)
+		c18History(t, res, rng.Fork(uint64(h)), h, cfgs[h%len(cfgs)])
 	}
 }
 
-func c18History(t *testing.T, res *common.Result, rng *common.Rng, idx int) {
-	srv := startServer(t, srvCfg{rest: true})
+func c18History(t *testing.T, res *common.Result, rng *common.Rng, idx int, extra []string) {
+	srv := startServer(t, srvCfg{rest: true, extra: extra})
+	res.Count("config:" + strings.Join(append([]string{"default"}, extra...), " "))
 	if !srv.started {
 		t.Fatalf("server did not start: %v", srv.logTail(40))
 	}
@@ -198,6 +201,7 @@ func c18History(t *testing.T, res *common.Result, rng *common.Rng, idx int) {
 	}
 	k.sizes[names[0]] = 1
 	owners := []string{"g1", "g2", "rest"}
+	k.checkList("initial") // nothing held yet: `No locks found`
 	nReq := 20 + rng.Intn(21)
 	checkpointEvery := 7 + rng.Intn(4)
 
